@@ -100,7 +100,7 @@ var c08 = Check[c08Case]{
 	Prop: "C08", Name: "model",
 	Gen: func(t *rapid.T) c08Case {
 		o := StreamOpts{MinItems: 1, MaxItems: 1, NoDump: true,
-			Race: RaceOpts{MaxOps: 4, MaxFrames: 12, Args: true},
+			Race: RaceOpts{MaxOps: 9, MaxFrames: 12, Args: true},
 			Junk: JunkOpts{MaxLines: 4, Binary: true, Long: true}}
 		c := c08Case{S: genStream(t, o), BadAt: -1, D: genDelivery(t)}
 		if oneIn(t, 5, "orphanSection") {
